@@ -262,6 +262,29 @@ def run_mutant(phase, same_host, data, frag, close_after):
         w.close()
 
 
+def reset_before_accept(_):
+    """a peer connects, writes a few bytes and resets the connection before the node gets round to accepting it (the node was
+    busy): accept() still hands the dead connection out.  At most that connection is lost"""
+    c09.setup_worker()
+    out = []
+    for garbage in (b'', b'\x00\x01junk', b'MAJI\x00\x00'):
+        w = AttackWorld('before-greeting', False)
+        try:
+            msgs, B1, T1 = base_messages(w, 'before-greeting')
+            s = simnet.FakeSocket(w.net, None)
+            s.local = ('9.9.9.9', 50123)
+            s.remote = w.node.lsock.local
+            w.node.lsock.backlog.append(s)
+            s.rx_out = garbage
+            s.close()
+            w.node.accept()
+            for key, what in judge(w, B1, T1, False):
+                out.append((key, what + "; a connection reset before the node accepted it (%d bytes written first)" % len(garbage)))
+        finally:
+            w.close()
+    return out
+
+
 def transcript(phase):
     w = AttackWorld(phase, False)
     try:
@@ -488,6 +511,8 @@ def run(ctx):
             n = ctx.ncpu
             jobs += [(phase, same, items[i::n]) for i in range(n) if items[i::n]]
     ctx.log("mutants per phase", nm)
+    for key, what in ctx.pmap(reset_before_accept, [0, 1])[0]:
+        ctx.violation(key, what, {'reset_before_accept': True})
     res = ctx.pmap(_worker, jobs)
     tot = {'runs': 0, 'attacker_dropped': 0, 'block_entered': 0}
     fam = {}
@@ -517,6 +542,8 @@ def run(ctx):
 
 
 def replay(data, ctx):
+    if data.get('reset_before_accept'):
+        return reset_before_accept(0)
     c09.setup_worker()
     res, _, _ = run_mutant(data['phase'], data['same_host'], bytes.fromhex(data['data']), data['frag'], data['close'])
     return list(res)
